@@ -73,9 +73,92 @@ def rule_unbound(ctx: Ctx, rule: str, scopes: Iterable[Scope], what: str) -> Non
             ctx.violation(rule, f'{u.rel}: function `{ch.get_name()}` (line {ch.get_lineno()}) reads the global `{nm}`', f'{u.rel}:{ch.get_lineno()}',
                           f'nothing in the module binds `{nm}` (no assignment, import, def or class of that name) and it is not a builtin: '
                           'NameError on the path that reaches the read', construct=construct_key(u.rel, 'undefined global', ch.get_name(), nm))
+    # ... and the anchored functions are reached as written: a decorator of the package put on one of them stands between every
+    # caller and the analysed body.  It is accepted when it is transparent - its wrapper hands `*args, **kwargs` on unchanged and
+    # returns what the function returned, on every path - and is a violation otherwise (whatever it adds is not covered)
+    import ast as _ast2
+    STD_DECOS = {'property', 'staticmethod', 'classmethod', 'abstractmethod', 'abc.abstractmethod', 'contextmanager', 'contextlib.contextmanager',
+                 'asynccontextmanager', 'contextlib.asynccontextmanager', 'overload', 'typing.overload', 'wraps', 'functools.wraps', 'final', 'typing.final',
+                 'override', 'typing.override'}
+    for sc in scopes:
+        for f in descendants(sc):
+            for d in getattr(f.node, 'decorator_list', []):
+                dn = d.func if isinstance(d, _ast2.Call) else d
+                name = _dotted_name(dn)
+                if name is None or name in STD_DECOS or name.split('.')[-1] in ('setter', 'getter', 'deleter'):
+                    continue
+                target = next((c for c in f.unit.module_scope.children if c.kind == 'function' and c.name == name), None)
+                if target is None:
+                    continue            # a library decorator: outside the package, trusted like the library
+                why = _decorator_opaque(target)
+                if why is not None:
+                    bad += 1
+                    ctx.violation(rule, f'{f.qualname} is decorated with @{name}', f'{f.unit.rel}:{getattr(d, "lineno", f.lineno)}',
+                                  f'the decorator is not transparent ({why}): what callers reach is the decorator\'s wrapper, not the analysed function - '
+                                  'arguments or options can be changed or dropped, results re-packed, on paths the rules never see',
+                                  construct=construct_key(f.qualname, 'opaque decorator', name))
     if not bad:
         ctx.holds(rule, f'{len(seen)} function(s): every local is assigned on every feasible path to each of its reads '
                         f'({n_reads} candidate read(s) examined path-sensitively)', f'{next(iter(scopes)).unit.rel}:1', examined=max(1, n_reads))
+
+
+def _dotted_name(e) -> 'Optional[str]':
+    import ast
+    if isinstance(e, ast.Name):
+        return e.id
+    if isinstance(e, ast.Attribute):
+        b = _dotted_name(e.value)
+        return None if b is None else b + '.' + e.attr
+    return None
+
+
+def _decorator_opaque(deco: Scope) -> 'Optional[str]':
+    """None when the package decorator *deco* is transparent: `def deco(f): @wraps(f) def w(*a, **k): ...; return f(*a, **k)` with every
+    return of the wrapper being the (awaited) call of f with exactly the star arguments, no other call of f, and `return w`.
+    Otherwise a short reason."""
+    import ast
+    from ..load import own_nodes
+    params = [p for p in deco.params]
+    if len(params) != 1:
+        return 'takes more than the function'
+    fp = params[0]
+    inner = [c for c in deco.children if c.kind == 'function']
+    rets = [x for x in own_nodes(deco.node) if isinstance(x, ast.Return) and x.value is not None]
+    if any(isinstance(r.value, ast.Name) and r.value.id == fp for r in rets) and not inner:
+        return None         # returns the function itself (a registering / marking decorator)
+    if len(inner) != 1:
+        return 'no single wrapper function'
+    w = inner[0]
+    a = w.node.args
+    if not (a.vararg and a.kwarg) or a.args or a.kwonlyargs or a.posonlyargs:
+        return 'the wrapper does not take (*args, **kwargs)'
+    va, kw = a.vararg.arg, a.kwarg.arg
+    for r in rets:
+        names = {x.id for x in ast.walk(r.value) if isinstance(x, ast.Name)}
+        if w.name not in names and not (isinstance(r.value, ast.Name) and r.value.id == fp):
+            return 'returns something other than its wrapper'
+
+    def is_fwd(v) -> bool:
+        if isinstance(v, ast.Await):
+            v = v.value
+        return isinstance(v, ast.Call) and isinstance(v.func, ast.Name) and v.func.id == fp and len(v.args) == 1 and isinstance(v.args[0], ast.Starred) \
+            and isinstance(v.args[0].value, ast.Name) and v.args[0].value.id == va and len(v.keywords) == 1 and v.keywords[0].arg is None \
+            and isinstance(v.keywords[0].value, ast.Name) and v.keywords[0].value.id == kw
+    wrets = [x for x in own_nodes(w.node) if isinstance(x, ast.Return)]
+    if not wrets or not all(x.value is not None and is_fwd(x.value) for x in wrets):
+        return 'the wrapper does not return func(*args, **kwargs) as it is on every path'
+    calls = [x for x in ast.walk(w.node) if isinstance(x, ast.Call) and isinstance(x.func, ast.Name) and x.func.id == fp]
+    if len(calls) != len(wrets):
+        return 'the function is called more than once per path'
+    if any(isinstance(x, ast.Name) and x.id in (va, kw) and isinstance(x.ctx, (ast.Store, ast.Del)) for x in ast.walk(w.node)):
+        return 'the arguments are re-bound in the wrapper'
+    if any(isinstance(x, ast.Attribute) and isinstance(x.value, ast.Name) and x.value.id == kw and x.attr in ('pop', 'update', 'setdefault', 'clear', 'popitem')
+           for x in ast.walk(w.node)) or any(isinstance(x, (ast.Subscript,)) and isinstance(x.ctx, (ast.Store, ast.Del)) and isinstance(x.value, ast.Name) and x.value.id == kw
+                                             for x in ast.walk(w.node)):
+        return 'the keyword arguments are modified in the wrapper'
+    if any(isinstance(x, ast.Raise) for x in own_nodes(w.node)):
+        return 'the wrapper raises on its own'
+    return None
 
 
 def _inside(u, lineno: int, scopes) -> bool:
@@ -153,3 +236,37 @@ def rule_func_attr_is_param(ctx: Ctx, rule: str, init: Scope, attr: str, what: s
     if not stores:
         ctx.violation(rule, f'{init.qualname}: self.{attr} is never assigned in the constructor', f'{init.unit.rel}:{init.lineno}',
                       construct=construct_key(init.qualname, 'function attribute missing', attr))
+
+
+def rule_option_descriptors(ctx: Ctx, rule: str, cls: Scope, program) -> None:
+    """The options of a component are per-instance state.  A class-level descriptor under the name of an attribute the
+    constructor assigns must keep the value on the *instance*: a `__set__` that stores on the descriptor itself (one object
+    per class) makes the option of every instance whatever was assigned last, anywhere."""
+    import ast
+    from ..load import own_nodes
+    n = 0
+    for st in cls.node.body:
+        if not (isinstance(st, ast.Assign) and len(st.targets) == 1 and isinstance(st.targets[0], ast.Name) and isinstance(st.value, ast.Call)
+                and isinstance(st.value.func, ast.Name)):
+            continue
+        dcls = next((c for uu in program.units.values() for c in uu.classes() if c.name == st.value.func.id), None)
+        if dcls is None:
+            continue
+        setter = next((m for m in dcls.children if m.kind == 'function' and m.name == '__set__'), None)
+        if setter is None or len(setter.params) < 3:
+            continue
+        n += 1
+        me, inst = setter.params[0], setter.params[1]
+        on_self = [x for x in own_nodes(setter.node) if isinstance(x, ast.Attribute) and isinstance(x.ctx, ast.Store)
+                   and isinstance(x.value, ast.Name) and x.value.id == me]
+        on_inst = [x for x in ast.walk(setter.node) if (isinstance(x, ast.Attribute) and isinstance(x.ctx, ast.Store) and isinstance(x.value, ast.Name) and x.value.id == inst)
+                   or (isinstance(x, ast.Call) and isinstance(x.func, ast.Name) and x.func.id == 'setattr' and x.args and isinstance(x.args[0], ast.Name) and x.args[0].id == inst)
+                   or (isinstance(x, ast.Subscript) and isinstance(x.ctx, ast.Store) and isinstance(x.value, ast.Attribute) and x.value.attr == '__dict__'
+                       and isinstance(x.value.value, ast.Name) and x.value.value.id == inst)]
+        ctx.check(rule, f'{cls.name}.{st.targets[0].id} = {norm(st.value)}: {dcls.name}.__set__ stores on {"the instance" if on_inst and not on_self else "the descriptor" if on_self else "nothing"}',
+                  f'{cls.unit.rel}:{st.lineno}', bool(on_inst) and not on_self, 'per-instance option',
+                  'the descriptor keeps the assigned value on itself - there is one descriptor object per class, so the option of every instance (every '
+                  'per-loop batcher of the decorator, every explicitly built one) is whatever was assigned last: the option a caller gave does not take effect',
+                  construct=construct_key(cls.qualname, 'option descriptor shares its value', st.targets[0].id))
+    if not n:
+        ctx.holds(rule, f'{cls.name}: no class-level data descriptor stands in for an option attribute', f'{cls.unit.rel}:{cls.lineno}')
